@@ -140,7 +140,7 @@ PROPS = {
         "kind": "c02",
         "module": "Props.C02",
         "namespace": "Jl.C02",
-        "extra_theorem_files": [("Proofs.JsonPrint", "Jl.JsonPrint")],
+        "extra_theorem_files": [("Proofs.JsonPrint", "Jl.JsonPrint"), ("Proofs.RoundTrip", "Jl.RoundTrip")],
         "rule": ("grammar-directed RFC 8259 objects: any member order, depth <= 4 random plus fixed depth 64, arrays of objects, empty "
                  "containers, every escape spelling (raw UTF-8, \\uXXXX, surrogate pairs, all short escapes, escaped and raw U+2028, DEL), "
                  "number spellings (-0, 1E+2, 0.10, 30-digit integers, 1e-400, 1e400), arbitrary insignificant whitespace; out-of-domain "
